@@ -157,9 +157,15 @@ def run_system(case, events, callbacks=None, target=None):
     prob = problem(case["problem"], t0)
     y0 = np.array(prob.y0, dtype=dtype)
     tol = case.get("tol", 1e-8)
+    if case.get("prelude"):
+        # round trip on ONE system (oscillator only: its closed form needs no anchor): the system is built at tf, first runs tf -> t0 WITHOUT events, then
+        # t0 -> tf with the events.  Everything the first leg leaves behind (pieces, caches, orientation) must not disturb the second one.
+        y0 = np.array(problem(case["problem"], tf).y0, dtype=dtype)
     # 'against': the system is configured with the mirrored span; the direction of the run is chosen by integrate(t) alone
     tf_cfg = (2 * t0 - tf) if case.get("against") else tf
     buf = y0.copy()         # the caller reuses its buffer after construction
+    if case.get("prelude"):
+        t0, tf_cfg = tf, t0      # (configured along the first leg)
     a = de.OdeSystem(prob.f, y0=buf, t=(dtype(t0), dtype(tf_cfg)), dt=dtype(case["dt0"]), rtol=dtype(tol), atol=dtype(tol), dense_output=bool(case["dense"]), constants=dict(CONSTS))
     buf[...] = dtype(77.0)
     a.method = lc.by_name(case["method"])
@@ -170,7 +176,13 @@ def run_system(case, events, callbacks=None, target=None):
         target = dtype(tf)
     try:
         with in_library():
-            if case.get("handover") is not None:
+            if case.get("prelude"):
+                a.integrate(dtype(case["span"][0]), events=(events if case["prelude"] == "events" else None), callback=cbs)
+                a._verif_skip = len(a) - 1                 # rows (and events) of the first leg: the oracles look at the second leg only
+                a._verif_skip_events = len(a.events)
+                a.dt = dtype(case["dt0"])
+                a.integrate(dtype(case["span"][1]), events=events, callback=cbs)
+            elif case.get("handover") is not None:
                 # two successive calls with the same event functions: the first ends at (or next to) a crossing, the second goes on to the end
                 a.integrate(dtype(case["handover"]), events=events, callback=cbs)
                 a.integrate(dtype(tf) if target is None else target, events=events, callback=cbs)
@@ -208,6 +220,7 @@ METHODS = ["EulerSolver", "RK4Solver", "RK45CKSolver", "ABAs5o6HSolver", "Implic
 LIN_SPANS = {(-1.0, 2.0): [-0.75, -0.5, 0.25, 0.5, 0.625, 1.0, 1.75], (2.0, -1.0): [-0.75, -0.5, 0.25, 0.5, 0.625, 1.0, 1.75],
              (-3.0, -1.0): [-2.75, -2.5, -2.25, -2.0, -1.625, -1.25], (-1.0, -3.0): [-2.75, -2.5, -2.25, -2.0, -1.625, -1.25]}
 OSC_SPANS = {(0.0, 3.0): [0.4, 1.1, 2.3], (3.0, 0.0): [0.4, 1.1, 2.3], (-3.0, -0.5): [-2.6, -1.3, -0.8], (1.0, -2.0): [-1.3, -0.8, 0.4]}
+OSC_SPANS_NEAR = dict(OSC_SPANS)
 # the same alphabet far from the origin of the time axis (|t| >> 1, where one unit in the last place of t exceeds an absolute tolerance of a few eps)
 LIN_SPANS.update({(-34.0, -31.0): [-33.75, -33.5, -32.75, -32.5, -32.375, -32.0, -31.25], (-31.0, -34.0): [-33.75, -33.5, -32.75, -32.5, -32.375, -32.0, -31.25],
                   (31.0, 34.0): [31.25, 31.5, 32.25, 32.5, 32.625, 33.0, 33.75]})
@@ -296,6 +309,16 @@ def cells(quick):
                                         continue
                                     evs = [dict(kind=kind, tau=tau, s=1.0, dir=dr)]
                                     out.append(dict(problem=pname, span=list(span), dt0=dt0, method=m, dense=dense, dtype="float64", events=evs, tol=1e-8, handover=tau + off))
+    # round trips on one system: a first leg without events in the opposite direction, then the leg that is judged
+    for span, taus in OSC_SPANS_NEAR.items():
+        sets = [[dict(kind=k, tau=tau)] for tau in taus for k in ("time", "state", "dstate")] + [[dict(kind="time", tau=taus[0]), dict(kind="state", tau=taus[1])], [dict(kind="state", tau=taus[2]), dict(kind="dstate", tau=taus[0])]]
+        for es in sets:
+            for s_ in ((1.0, 1e3, 1e-6) if quick else (1e-9, 1e-6, 1e-3, 1.0, 1e3, 1e6)):
+                for m in METHODS:
+                    # (dense output off: with it on, the two legs overlap in time and 'the dense solution at t_e' is ambiguous, as in C06)
+                    evs = [dict(e, s=s_, dir=0) for e in es]
+                    out.append(dict(problem="osc", span=list(span), dt0=0.25, method=m, dense=False, dtype="float64", events=evs, tol=1e-8, prelude=True))
+                    out.append(dict(problem="osc", span=list(span), dt0=0.25, method=m, dense=False, dtype="float64", events=evs, tol=1e-8, prelude="events"))
     if not quick:
         extra = []
         for c in out:
